@@ -4,7 +4,9 @@
     commands: ALL interleavings of the two five-command takes are enumerated; larger cases (k consumers, n messages,
     full consume/ack/reject/finish loops) under seeded random gate schedules; rabbit: random gate schedules;
 (b) mem: k consumer tasks interleaved at every yield point by start offsets;
-(c) 2-3 Workers on one queue with short successful actors on every broker: each job is executed exactly once.
+(c) 2-3 Workers on one queue with short successful actors on every broker: each job is executed exactly once;
+(d) relay: a seeded random walk of consume / reject / requeue / ack / finish / start over 2-3 consumers and 1-3 messages
+    on every broker (a message that changed hands must not be brought back by its previous holder's shutdown).
 Monitor: per message id, deliveries and returns must alternate.
 """
 from __future__ import annotations
@@ -23,7 +25,7 @@ RULE = ("(a) redis 2 consumers x 1 message: all C(10,5)=252 orders of the 5+5 ga
 ASSUMPTIONS = ["Redis and RabbitMQ are wire-level fakes; the gate delays a client's command at the server, which is what arbitrary network latency can do",
                "redis priority polling order pinned (priorities_distribution 1/0/0) in the exhaustive enumeration so that a take is exactly five commands"]
 EVAL_COUNTER = "scenarios_judged"
-REQUIRED = ["scenarios_judged", "exhaustive_orders", "gated_random_runs", "mem_offset_runs", "multi_worker_runs", "deliveries_seen"]
+REQUIRED = ["scenarios_judged", "exhaustive_orders", "gated_random_runs", "mem_offset_runs", "multi_worker_runs", "deliveries_seen", "relay_runs", "relay_returns", "relay_finish_while_other_holds", "relay_handover_patterns"]
 CASE_TIMEOUT = 150
 
 
@@ -40,6 +42,9 @@ def gen_cases(tier, seed):
             cases.append({"type": "gated", "kind": kind, "k": rnd.choice([2, 2, 3, 4]), "n": rnd.choice([1, 2, 5, 15]), "seed": rnd.randrange(10**6)})
     for i in range({"quick": 10, "thorough": 120}[tier]):
         cases.append({"type": "mem", "k": rnd.choice([2, 3]), "n": rnd.choice([1, 2, 4]), "seed": rnd.randrange(10**6)})
+    for kind in ("mem", "redis", "rabbit"):
+        for i in range({"quick": 30 if kind == "mem" else 6, "thorough": 150 if kind == "mem" else 40}[tier]):
+            cases.append({"type": "relay", "kind": kind, "k": rnd.choice([2, 3]), "n": rnd.choice([1, 1, 2, 3]), "seed": rnd.randrange(10**6), "ops": rnd.choice([12, 25, 40])})
     for kind in ("mem", "redis", "rabbit"):
         for i in range({"quick": 4, "thorough": 40}[tier]):
             cases.append({"type": "workers", "kind": kind, "k": rnd.choice([2, 3]), "n": rnd.choice([3, 8, 20]), "seed": rnd.randrange(10**6), "tl": rnd.choice([1, 3, 1000])})
@@ -349,6 +354,127 @@ async def mem_offsets(loop, case, out, stats, fps):
         rig.close()
 
 
+async def relay(loop, case, out, stats, fps):
+    """A message changes hands: one driver performs a seeded random walk over consume / return (reject, requeue) / ack /
+    finish / start on 2-3 consumers sharing a queue. What a consumer gave back belongs to whoever is handed it next: a
+    later finish() of the previous holder (or anything else) must not bring it back while the new holder has it."""
+    from repid.message import MessageCategory
+    from rv.rigs import Rig, key_of
+
+    kind = case["kind"]
+    rnd = random.Random(case["seed"])
+    rig = Rig(kind, loop, seed=case["seed"])
+    idle = {"mem": 0.05, "redis": 2.5, "rabbit": 0.6}[kind]
+    try:
+        conns = [rig.make_connection(f"p{i}") for i in range(1 if kind == "mem" else 2)]
+        for c in conns:
+            await c.connect()
+        mb0 = conns[0].message_broker
+        await mb0.queue_declare("q")
+        P = mb0.PARAMETERS_CLASS
+        for i in range(case["n"]):
+            await mb0.enqueue(key_of(conns[0], f"m{i:02d}", "t", "q"), "p0", P())
+        events, seq = [], itertools.count()
+        cons = []  # dicts: obj, conn, started, held {id: key}
+        acked = set()
+
+        async def start():
+            conn = rnd.choice(conns)
+            c = {"obj": conn.message_broker.get_consumer("q", None, rnd.choice([None, 1, 5]), MessageCategory.NORMAL), "conn": conn, "started": True, "held": {}, "name": f"c{len(cons)}"}
+            await c["obj"].start()
+            cons.append(c)
+
+        for _ in range(case["k"]):
+            await start()
+        walk = []
+        forced = []  # (op, consumer) pairs queued by the hand-over pattern below
+        for _ in range(case["ops"]):
+            started = [c for c in cons if c["started"]]
+            holders = [c for c in cons if c["held"]]
+            choices = ["consume"] * 5 * bool(started) + ["return"] * 4 * bool(holders) + ["ack"] * bool(holders) + ["finish"] * 2 * (len(started) > 0) + ["start"] * (len(started) < case["k"])
+            op = rnd.choice(choices)
+            pick = None
+            while forced:
+                fop, fc = forced.pop(0)
+                if fc["started"]:
+                    op, pick = fop, fc
+                    break
+            if op == "consume":
+                c = pick or rnd.choice(started)
+                try:
+                    key, _, _ = await asyncio.wait_for(c["obj"].consume(), idle)
+                except asyncio.TimeoutError:
+                    walk.append(f"{c['name']}.consume:-")
+                    continue
+                walk.append(f"{c['name']}.consume:{key.id_}")
+                events.append((next(seq), "D", key.id_, c["name"]))
+                if key.id_ in acked:
+                    out.append(V("double_delivery", kind, "relay/after-ack", f"{key.id_} delivered to {c['name']} after it had been acknowledged; walk {walk[-12:]}"))
+                c["held"][key.id_] = key
+            elif op in ("return", "ack"):
+                c = rnd.choice(holders)
+                id_ = rnd.choice(sorted(c["held"]))
+                key = c["held"].pop(id_)
+                mb = c["conn"].message_broker
+                if op == "ack":
+                    walk.append(f"{c['name']}.ack:{id_}")
+                    await mb.ack(key)
+                    acked.add(id_)
+                    events.append((next(seq), "R", id_, c["name"]))
+                else:
+                    how = rnd.choice(["reject", "reject", "requeue"])
+                    walk.append(f"{c['name']}.{how}:{id_}")
+                    events.append((next(seq), "R", id_, c["name"]))
+                    if how == "reject":
+                        await mb.reject(key)
+                    else:
+                        await mb.requeue(key, "p1", P())
+                    stats["relay_returns"] += 1
+                    rivals = [o for o in started if o is not c]
+                    if rivals and c["started"] and rnd.random() < 0.5:
+                        # hand-over pattern: a rival takes what was just given back, then the previous holder shuts down
+                        forced = [("consume", rnd.choice(rivals)), ("finish", c)]
+                        if rnd.random() < 0.5:
+                            forced.append(("consume", rnd.choice(rivals)))
+                        stats["relay_handover_patterns"] += 1
+            elif op == "finish":
+                c = pick or rnd.choice(started)
+                walk.append(f"{c['name']}.finish")
+                # what it still holds may legally come back (its own shutdown); nothing else may
+                for id_ in c["held"]:
+                    events.append((next(seq), "R", id_, c["name"]))
+                others_hold = any(o["held"] for o in cons if o is not c)
+                await asyncio.wait_for(c["obj"].finish(), 30)
+                c["started"] = False
+                c["held"] = {}
+                if others_hold:
+                    stats["relay_finish_while_other_holds"] += 1
+            else:
+                walk.append("start")
+                await start()
+            if kind != "mem":
+                await asyncio.sleep(0.01)
+        # drain: everything not acknowledged and not held must be deliverable exactly once more
+        for c in cons:
+            if c["started"]:
+                for id_ in c["held"]:
+                    events.append((next(seq), "R", id_, c["name"]))
+                await asyncio.wait_for(c["obj"].finish(), 30)
+        still_held = {id_: c["name"] for c in cons for id_ in c["held"]}
+        stats["relay_runs"] += 1
+        stats["scenarios_judged"] += 1
+        fps.add(f"relay/{kind}/" + ",".join(w.split(":")[0] for w in walk))
+        n0 = len(out)
+        judge_alternation(events, kind, "relay", out, stats)
+        for v in out[n0:]:
+            v["detail"] += f"; walk {walk}"
+        for c in conns:
+            await c.disconnect()
+        stats["unknown_server_commands"] += rig.unknown_commands()
+    finally:
+        rig.close()
+
+
 async def workers(loop, case, out, stats, fps):
     from repid import Job, Worker
     from rv.wl import World, fire_stop
@@ -426,7 +552,7 @@ def run_case(case):
         if seen_orders:
             samples.append(seen_orders[0])
     else:
-        fn = {"gated": gated, "mem": mem_offsets, "workers": workers}[case["type"]]
+        fn = {"gated": gated, "mem": mem_offsets, "workers": workers, "relay": relay}[case["type"]]
         args = (out, stats, fps, samples) if case["type"] == "gated" else (out, stats, fps)
         res = vl.run(lambda loop: fn(loop, case, *args), max_steps=6_000_000, seed=case["seed"])
         if res.exc is not None:
